@@ -174,24 +174,31 @@ def check_delegation_raise(ctx, R="C16.delegate"):
 
 
 def check(ctx):
-    check_delegation_raise(ctx)
-    rk.check_dispatch(ctx, "C16.dispatch")
-    n = rk.check_overrides(ctx, "C16.override")
-    ctx.floor("C16.override", n, 150, "overriding methods in the Region hierarchy")
-    _, classes = rk.region_classes(ctx.model)
-    m = ctx.model.module(RG)
-    mod_funcs = [f for q, f in m.functions.items() if "." not in q]
-    n = rk.check_names(ctx, "C16.names", classes, mod_funcs)
-    ctx.floor("C16.names", n, 300, "methods and functions of regions.py")
-    from .c03 import sampler_scope
+    from .c03 import check_cache, sampler_scope
 
-    n = rk.check_operand_interface(ctx, "C16.operand", scope=lambda m, s: not sampler_scope(m, s))
-    ctx.floor("C16.operand", n, 40, "attribute reads on Region-typed operands")
-    rk.check_z(ctx, "C16.z")
-    check_rebuild(ctx)
-    n = rk.check_argmin(ctx, "C16.argmin")
-    check_algebra(ctx)
-    check_units(ctx)
-    from .c03 import check_cache
+    def overrides(ctx):
+        n = rk.check_overrides(ctx, "C16.override")
+        ctx.floor("C16.override", n, 150, "overriding methods in the Region hierarchy")
 
-    check_cache(ctx, R="C16.cache")
+    def names(ctx):
+        _, classes = rk.region_classes(ctx.model)
+        m = ctx.model.module(RG)
+        mod_funcs = [f for q, f in m.functions.items() if "." not in q]
+        n = rk.check_names(ctx, "C16.names", classes, mod_funcs)
+        ctx.floor("C16.names", n, 300, "methods and functions of regions.py")
+
+    def operand(ctx):
+        n = rk.check_operand_interface(ctx, "C16.operand", scope=lambda m, s: not sampler_scope(m, s))
+        ctx.floor("C16.operand", n, 40, "attribute reads on Region-typed operands")
+
+    ctx.run(check_delegation_raise)
+    ctx.run(rk.check_dispatch, "C16.dispatch")
+    ctx.run(overrides)
+    ctx.run(names)
+    ctx.run(operand)
+    ctx.run(rk.check_z, "C16.z")
+    ctx.run(check_rebuild)
+    ctx.run(rk.check_argmin, "C16.argmin")
+    ctx.run(check_algebra)
+    ctx.run(check_units)
+    ctx.run(check_cache, R="C16.cache")
